@@ -123,6 +123,17 @@ class Maybe:
         return self.code == other.code and self.v == other.v
 
 
+@dataclass
+class PI:
+    """a field that is not an argument of the constructor"""
+
+    a: int
+    b: int = field(init=False, default=0)
+
+    def __post_init__(self):
+        self.b = self.a + 1
+
+
 class Strict:
     """repr is not Python code (-> HasRepr) and __eq__ answers False (not NotImplemented) for other types"""
 
@@ -136,6 +147,6 @@ class Strict:
         return isinstance(other, Strict) and other.v == self.v
 
 
-SUPPORT_NS = {"Strict": Strict, "Maybe": Maybe, "R": R, "P": P, "P2": P2, "PSub": PSub, "Q": Q, "A": A, "A2": A2, "NT": NT, "NT2": NT2, "Color": Color, "Perm": Perm, "Weird": Weird}
+SUPPORT_NS = {"PI": PI, "Strict": Strict, "Maybe": Maybe, "R": R, "P": P, "P2": P2, "PSub": PSub, "Q": Q, "A": A, "A2": A2, "NT": NT, "NT2": NT2, "Color": Color, "Perm": Perm, "Weird": Weird}
 if Basket is not None:
     SUPPORT_NS.update({"Basket": Basket, "basket_mut": basket_mut})
